@@ -70,7 +70,7 @@ def freq_class_spec(fr):
 
 
 # ----------------------------------------------------------------------------- model records -> Model
-def build_model(mr, ns, variant=0):
+def build_model(mr, ns, variant=0, suffix_names=False):
     """interpreter of a Sbml.tla model record through the public API; returns the initialised Model."""
     from bioscrape.types import Model
     prog = mr["prog"]
@@ -95,6 +95,12 @@ def build_model(mr, ns, variant=0):
             m.create_reaction(re_, pr_, ptype, pd, dtype, [sname(s) for s in rx["dre"]], [sname(s) for s in rx["dpr"]], dd)
     for k, v in params.items():
         m.create_parameter(k, v)
+    if suffix_names:
+        # identifiers that are the tail of other identifiers after an underscore (r0 / k_r0, k / DummyVar_..._k_0):
+        # parameters no rate mentions; an exporter that edits rate strings textually confuses them
+        for nm in ["r%d" % i for i in range(len(prog["rx"]))] + ["k", "n"]:
+            if nm not in params:
+                m.create_parameter(nm, 1.0)
     for j, ru in enumerate(mr["rules"]):
         eq = "%s = %s" % (ru["tpar"] if ru.get("tpar") else sname(ru["target"]), render(ru["rhs"], pw))
         m.create_rule(ru["type"], {"equation": eq}, rule_frequency=freq_str(ru["freq"], variant))
